@@ -263,31 +263,55 @@ func isTypeConv(info *types.Info, c *ast.CallExpr, k types.BasicKind) bool {
 	return ok && tv.IsType() && isBasic(tv.Type, k)
 }
 
-func (e *varintEngine) singleReturn(fn string) (ast.Expr, string, error) {
+// evalFunc evaluates a one-parameter helper on the abstract domain: a straight-line body of single
+// assignments to locals (or the named result) ending in a return.
+func (e *varintEngine) evalFunc(fn string, arg aval) (aval, error) {
 	fd := e.fns[fn]
 	if fd == nil || fd.Body == nil {
-		return nil, "", und("function %s not found", fn)
-	}
-	if len(fd.Body.List) != 1 {
-		return nil, "", und("%s: body is not a single return statement", fn)
-	}
-	rs, ok := fd.Body.List[0].(*ast.ReturnStmt)
-	if !ok || len(rs.Results) != 1 {
-		return nil, "", und("%s: body is not a single-result return", fn)
+		return aval{}, und("function %s not found", fn)
 	}
 	if len(fd.Type.Params.List) != 1 || len(fd.Type.Params.List[0].Names) != 1 {
-		return nil, "", und("%s: expected one parameter", fn)
+		return aval{}, und("%s: expected one parameter", fn)
 	}
-	return rs.Results[0], fd.Type.Params.List[0].Names[0].Name, nil
+	env := map[string]aval{fd.Type.Params.List[0].Names[0].Name: arg}
+	named := ""
+	if fd.Type.Results != nil && len(fd.Type.Results.List) == 1 && len(fd.Type.Results.List[0].Names) == 1 {
+		named = fd.Type.Results.List[0].Names[0].Name
+		env[named] = aval{kind: kInt, n: 0}
+	}
+	for _, st := range fd.Body.List {
+		switch t := st.(type) {
+		case *ast.AssignStmt:
+			if len(t.Lhs) != 1 || len(t.Rhs) != 1 || (t.Tok != token.ASSIGN && t.Tok != token.DEFINE) {
+				return aval{}, und("%s: assignment form outside the table", fn)
+			}
+			id, ok := t.Lhs[0].(*ast.Ident)
+			if !ok {
+				return aval{}, und("%s: assignment target form", fn)
+			}
+			v, err := e.evalExpr(t.Rhs[0], env)
+			if err != nil {
+				return aval{}, err
+			}
+			env[id.Name] = v
+		case *ast.ReturnStmt:
+			if len(t.Results) == 0 && named != "" {
+				return env[named], nil
+			}
+			if len(t.Results) != 1 {
+				return aval{}, und("%s: return form", fn)
+			}
+			return e.evalExpr(t.Results[0], env)
+		default:
+			return aval{}, und("%s: statement %T outside the table (straight-line assignments and a return)", fn, st)
+		}
+	}
+	return aval{}, und("%s: body does not end in a return", fn)
 }
 
 func (e *varintEngine) callSov(a aval) (aval, error) {
-	ex, param, err := e.singleReturn("Sov")
-	if err != nil {
-		return aval{}, err
-	}
 	a.shift = 0
-	return e.evalExpr(ex, map[string]aval{param: a})
+	return e.evalFunc("Sov", a)
 }
 
 // RunVarint decides C15's Sov / Soz / EncodeVarint clauses.
@@ -329,15 +353,10 @@ func RunVarint(c *core.Ctx) {
 			pos("Sov"), src)
 	}
 	// ---- Soz: 128 signed classes
-	ex, param, err := e.singleReturn("Soz")
 	for _, neg := range []bool{false, true} {
 		for L := 0; L <= 63; L++ {
 			con := fmt.Sprintf("runtime.Soz class neg=%v maglen=%d", neg, L)
-			if err != nil {
-				c.Undec("L.soz", con, err.Error(), pos("Soz"), src)
-				continue
-			}
-			got, err2 := e.evalExpr(ex, map[string]aval{param: {kind: kS, neg: neg, L: L}})
+			got, err2 := e.evalFunc("Soz", aval{kind: kS, neg: neg, L: L})
 			if err2 != nil {
 				c.Undec("L.soz", con, err2.Error(), pos("Soz"), src)
 				continue
